@@ -707,5 +707,6 @@ def constrained_case(g, klasses, ncontacts, max_joints=4, baumgarte=False, allow
         if qd is None:
             continue
         st[1] = "qd %d %s" % (nv, frs(qd))
+        cb.G = G
         return mb, grav, st, cb
     return None
